@@ -229,6 +229,8 @@ class ApiView(object):
         self.obj, self.reg_rid = S.selected_object(world, st, scalar)
         self.sol = world.describe(st, self.obj, scalar)
         st.events = []
+        st.writes = []
+        self.st_concrete = st.clone()      # post-masa_init state with the default parameter values
         self.st = st
         self.P = world.symbolize(st, self.sol, cache_prefix='cache')
         self.terms = {}
@@ -274,3 +276,24 @@ class ApiView(object):
                     raise ExecError('%s: terminal %r' % (api, p['terminal']))
             self.terms[key] = (merge_paths(paths), paths)
         return self.terms[key][0]
+
+
+class RegView(ApiView):
+    """Like ApiView, but the registry state is constructed directly: the catalogue object built by the real
+    constructor (get_list_mms executed on the IR) is made the selected solution by writing _master_pointer.
+    Used where masa_init itself is not the subject (C15, C10) -- 'drive the unit, construct the state directly'."""
+
+    def __init__(self, chk, world, name, scalar):
+        self.chk, self.w, self.name, self.scalar = chk, world, name, scalar
+        st0, sol = world.find(scalar, name)
+        st = st0.clone()
+        reg = [n for n in st.gmap if ('masa_master_double' if scalar == 'double' else 'masa_master_longdouble') in n][0]
+        self.reg_rid = st.gmap[reg]
+        st.mem[(self.reg_rid, 0)] = (8, sol['ptr'])
+        self.obj = sol['ptr']
+        self.sol = sol
+        st.events = []
+        st.writes = []
+        self.st = st
+        self.P = world.symbolize(st, sol, cache_prefix='cache')
+        self.terms = {}
